@@ -17,7 +17,7 @@ from lib.common import cps, uncps
 PROP = 'C15'
 LEVEL = 'proof'
 PROPS_MODULES = ['RTV.Props.C15']
-GEN = ['timexregex']
+GEN = ['timexregex', 'timexenglish']
 REQUIRED_THEOREMS = ['weekday_resolve', 'duration_seconds', 'year_range', 'month_range', 'month_range_december',
                      'week_range', 'week_range_across_month', 'collapse_terminates', 'collapseDates_returns',
                      'inner_collapse_before_fix_stuck', 'evaluate_triple_returns', 'evaluate_regressions',
